@@ -400,8 +400,123 @@ type LeafOut struct{ A int }
 	return &World{Name: "T12", Module: DefaultModule, Files: map[string]string{"t12/c.go": src}, Patterns: []string{"./t12"}, Tags: []string{"T12", "healthy", "contexts"}}
 }
 
+// T13: a regex extend that matches several functions of the same signature (the last match in
+// name order wins), plus — in the failing variant — one match that returns an error although
+// the converter method does not: which function is called / which diagnostic is printed must
+// not follow the order in which the package scope is walked.
+func T13(rng *rand.Rand) *World {
+	fn := names(rng, "Parse", 4)
+	failing := rng.IntN(2) == 0
+	var funcs string
+	for i, n := range fn {
+		if failing && i == 1 {
+			funcs += fmt.Sprintf("func %s(s string) (int, error) { return len(s) + %d, nil }\n", n, i)
+		} else {
+			funcs += fmt.Sprintf("func %s(s string) int { return len(s) + %d }\n", n, i)
+		}
+	}
+	src := fmt.Sprintf(`package t13
+
+// goverter:converter
+// goverter:extend Parse.*
+type Converter interface {
+	Convert(source In) Out
+}
+
+%s
+type In struct{ A string; B []string }
+type Out struct{ A int; B []int }
+`, funcs)
+	tags := []string{"T13", "regex-extend"}
+	if !failing {
+		tags = append(tags, "healthy")
+	}
+	return &World{Name: "T13", Module: DefaultModule, Files: map[string]string{"t13/c.go": src}, Patterns: []string{"./t13"}, Tags: tags}
+}
+
+// T14: an explicitly declared method that is named like the helper goverter generates for the
+// same pair of types: two methods of one name exist, their order in the output must not vary.
+func T14(rng *rand.Rand) *World {
+	src := `package t14
+
+// goverter:converter
+// goverter:output:file ./conv.gen.go
+// goverter:output:package github.com/jmattheis/goverter/execution/t14
+type Converter interface {
+	Convert(source Outer) OuterOut
+	// the name goverter gives the generated helper for Input -> Output, taken for a
+	// hand-declared pointer variant: two methods of one name
+	t14InputToT14Output(source *Input) *Output
+	T14LeafToT14LeafOut(source Leaf) LeafOut
+}
+
+type Outer struct{ A Input; B []Input; C map[string]Leaf }
+type OuterOut struct{ A Output; B []Output; C map[string]LeafOut }
+type Input struct{ V Leaf }
+type Output struct{ V LeafOut }
+type Leaf struct{ X int }
+type LeafOut struct{ X int }
+`
+	return &World{Name: "T14", Module: DefaultModule, Files: map[string]string{"t14/c.go": src}, Patterns: []string{"./t14"}, Tags: []string{"T14", "helper-name-clash"}}
+}
+
+// T15: extend functions in packages that import each other (an import cycle, a user error):
+// the diagnostic must not depend on the order in which goverter names the packages to load.
+func T15(rng *rand.Rand) *World {
+	pk := names(rng, "x", 3)
+	files := map[string]string{}
+	var ext []string
+	for i, p := range pk {
+		next := pk[(i+1)%len(pk)]
+		files["t15/"+p+"/f.go"] = fmt.Sprintf("package %s\n\nimport %q\n\nvar _ = %s.Marker\n\nconst Marker = %d\n\nfunc Conv%d(s string) int { return len(s) }\n", p, DefaultModule+"/t15/"+next, next, i, i)
+		ext = append(ext, fmt.Sprintf("// goverter:extend %s/t15/%s:Conv%d", DefaultModule, p, i))
+	}
+	src := fmt.Sprintf(`package t15
+
+// goverter:converter
+%s
+type Converter interface {
+	Convert(source In) Out
+}
+
+type In struct{ A string }
+type Out struct{ A int }
+`, strings.Join(ext, "\n"))
+	files["t15/c.go"] = src
+	return &World{Name: "T15", Module: DefaultModule, Files: files, Patterns: []string{"./t15"}, Tags: []string{"T15", "extend-import-cycle", "failing"}}
+}
+
+// T16: the selected packages import each other (an import cycle): the diagnostic must not
+// depend on the order of the patterns.
+func T16(rng *rand.Rand) *World {
+	pk := names(rng, "y", 2+rng.IntN(2))
+	files := map[string]string{}
+	var pats []string
+	for i, p := range pk {
+		next := pk[(i+1)%len(pk)]
+		files["t16/"+p+"/c.go"] = fmt.Sprintf(`package %s
+
+import %q
+
+var _ = %s.Marker
+
+const Marker = %d
+
+// goverter:converter
+type Converter interface {
+	Convert(source In) Out
+}
+
+type In struct{ A string }
+type Out struct{ A string }
+`, p, DefaultModule+"/t16/"+next, next, i)
+		pats = append(pats, "./t16/"+p)
+	}
+	return &World{Name: "T16", Module: DefaultModule, Files: files, Patterns: pats, Tags: []string{"T16", "pattern-import-cycle", "failing"}}
+}
+
 // Templates lists all template constructors.
-var Templates = []func(*rand.Rand) *World{T1, T2, T3, T4, T5, T6, T7, T8, T9, T10, T11, T12}
+var Templates = []func(*rand.Rand) *World{T1, T2, T3, T4, T5, T6, T7, T8, T9, T10, T11, T12, T13, T14, T15, T16}
 
 // Combine merges several worlds into one module by prefixing their package directories.
 // Import paths inside the sources are rewritten accordingly.
